@@ -5,7 +5,7 @@ use crate::{
         GlobalDeclaration, IfStatement, Program, Statement, Variable, WhileStatement,
     },
     error::{SemanticErrorMessage, SplError},
-    ToRange,
+    Shiftable, ToRange,
 };
 use std::cmp::Ordering;
 
@@ -17,17 +17,25 @@ pub fn analyze(program: &mut Program, table: &GlobalTable) {
     program
         .global_declarations
         .iter_mut()
-        .map(|r| r.as_mut())
-        .filter_map(|dec| match dec {
-            GlobalDeclaration::Procedure(proc) => Some(proc),
-            _ => None,
+        .filter_map(|dec| {
+            let offset = dec.offset;
+            match dec.as_mut() {
+                GlobalDeclaration::Procedure(proc) => Some((proc, offset)),
+                _ => None,
+            }
         })
-        .for_each(|proc| {
+        .for_each(|(proc, offset)| {
             if let Some(name) = &proc.name {
                 let entry = table
                     .lookup(&name.value)
                     .expect("Named declaration without entry");
                 if let GlobalEntry::Procedure(proc_entry) = &entry {
+                    // A redeclaration has no entry of its own.
+                    // Its body cannot be analyzed with the parameters and variables
+                    // of the declaration that owns the entry.
+                    if proc_entry.range != proc.to_range().shift(offset) {
+                        return;
+                    }
                     let lookup_table = &LookupTable {
                         local_table: Some(&proc_entry.local_table),
                         global_table: Some(table),
